@@ -42,6 +42,29 @@ func H_C11_inject() {
 	VReach("end")
 }
 
+// C11.firstcall — the very first call made on a fresh state (no library opened, so nothing has run on it yet)
+// is cancelled like every later one.
+//
+//verif:harness prop=C11 tier=quick nonative bounds="fresh state with no library opened; a loop of 40 progress steps run as the state's first call (PCall); context done after k progress steps, k symbolic in [0, 12]"
+func H_C11_firstcall() {
+	k := int(VByte("k"))
+	VAssume(k <= 12)
+	ctx := newTickCtx(k)
+	L := NewState(Options{SkipOpenLibs: true, CallStackSize: 32, RegistrySize: 256})
+	L.G.Global.RawSetString("tick", L.NewFunction(func(L *LState) int {
+		ctx.ticks++
+		VAssert(ctx.ticks <= k+3, "firstcall: the script makes no further progress once the context is done")
+		return 0
+	}))
+	L.SetContext(ctx)
+	fn, err := L.LoadString(`for i = 1, 40 do tick() end`)
+	VAssert(err == nil, "firstcall: loads")
+	L.Push(fn)
+	err = L.PCall(0, 0, nil)
+	VAssert(err != nil && strings.Contains(err.Error(), "context canceled"), "firstcall: the first call on the state returns the context's error")
+	VReach("end")
+}
+
 // tickCtx is done once the script has called the host function tick() k times: cancellation is
 // injected at every point of the script's progress, independent of how often the VM polls.
 type tickCtx struct {
